@@ -19,7 +19,7 @@
 From Coq Require Import String Ascii List Bool Arith ZArith PrimFloat.
 Import ListNotations.
 Require Import Generated PyBase PyStr Lex Format Symbols Split Merge ParseEq ParseModel Solver SolverF Eval EvalFacts EvalF.
-Require Import CodeGen CodeGenF CodeGenFacts CodeGenFacts2 CodeGenFacts3 CodeGenFacts4 CodeGenFacts5 CodeGenFacts6 CodeGenFacts7 CodeGenFacts8 CodeGenFacts9 LexFacts CodeGenLexFacts CodeGenSrc CodeGenSrcFacts CodeGenSrcFacts2 CodeGenBlock CodeGenBlockFacts CodeGenExamples.
+Require Import CodeGen CodeGenF CodeGenFacts CodeGenFacts2 CodeGenFacts3 CodeGenFacts4 CodeGenFacts5 CodeGenFacts6 CodeGenFacts7 CodeGenFacts8 CodeGenFacts9 CodeGenFacts10 LexFacts CodeGenLexFacts CodeGenSrc CodeGenSrcFacts CodeGenSrcFacts2 CodeGenBlock CodeGenBlockFacts CodeGenExamples.
 Open Scope string_scope.
 
 (* ======================= Part A: the generated text ======================= *)
@@ -334,6 +334,21 @@ Theorem C01_statement_enters_class_text_unchanged equation code :
   indent8 (default_converter equation code) = prefix8 ++ "# " ++ equation ++ nl_s ++ prefix8 ++ code.
 Proof. exact (one_line_statement_in_class_text equation code). Qed.
 Print Assumptions C01_statement_enters_class_text_unchanged.
+(* the same for ANY statement given by the lines of its normalised equation and of its code — a multi-line verbatim
+   block included: every equation line as a comment, then every code line, each indented by eight blanks (all-whitespace
+   lines kept as they are), in order; no line dropped, added or edited *)
+Theorem C01_statement_lines_enter_class_text_unchanged elines clines :
+  forallb no_sep elines = true -> elines <> [] -> last elines "x" <> "" -> forallb no_sep clines = true -> clines <> [] ->
+  indent8 (default_converter (join_nl elines) (join_nl clines))
+  = join_nl (map line8 (map (fun x => "# " ++ x) elines ++ clines)).
+Proof. exact (statement_lines_in_class_text elines clines). Qed.
+Print Assumptions C01_statement_lines_enter_class_text_unchanged.
+Theorem C01_verbatim_block_instance :
+  indent8 (default_converter (join_nl ["```"; "x = 1"; ""; "if x:"; "    y = 2"; "```"]) (join_nl ["x = 1"; ""; "if x:"; "    y = 2"]))
+  = join_nl ["        # ```"; "        # x = 1"; "        # "; "        # if x:"; "        #     y = 2"; "        # ```";
+             "        x = 1"; ""; "        if x:"; "            y = 2"].
+Proof. exact verbatim_block_instance. Qed.
+Print Assumptions C01_verbatim_block_instance.
 Theorem C01_class_text_instance :
   indent8 (default_converter "Y[t] = X[t-1]" "self._Y[t] = self._X[t-1]")
   = "        # Y[t] = X[t-1]" ++ nl_s ++ "        self._Y[t] = self._X[t-1]".
@@ -360,6 +375,16 @@ Theorem C01_tree_fuel_suffices row f ts e rest :
   p_expr row f ts = Some (e, rest) -> p_expr row (tree_fuel ts) ts = Some (e, rest).
 Proof. exact (tree_fuel_suffices row f ts e rest). Qed.
 Print Assumptions C01_tree_fuel_suffices.
+
+(* the same for the parser of conditions and conditional expressions *)
+Theorem C01_test_fuel_monotone row f f' ts r :
+  f <= f' -> p_test row f ts = Some r -> p_test row f' ts = Some r.
+Proof. exact (test_fuel_monotone row f f' ts r). Qed.
+Print Assumptions C01_test_fuel_monotone.
+Theorem C01_test_fuel_suffices row f ts st rest :
+  p_test row f ts = Some (st, rest) -> p_test row (test_fuel ts) ts = Some (st, rest).
+Proof. exact (test_fuel_suffices row f ts st rest). Qed.
+Print Assumptions C01_test_fuel_suffices.
 
 (* every statement `NAME[k0] = rhs` of the subset: the cell assigned is (row NAME, k0) — a left-hand lead or lag k0 is kept —
    and the series terms of the right-hand side AS WRITTEN (st: value, condition, alternative) are exactly the VARIABLE /
@@ -550,6 +575,18 @@ Theorem C01_conditional_pass_instance :
   end.
 Proof. exact conditional_pass. Qed.
 Print Assumptions C01_conditional_pass_instance.
+(* leads and lags on the LEFT-hand side: `Y[1] = X[-1] + 1`, `Z[-1] = Y[1]*2` at t = 1 write Y[2] and Z[0] and nothing else *)
+Theorem C01_lhs_offset_instance :
+  match fprogram_of_script ("Y[1] = X[-1] + 1" ++ lf ++ "Z[-1] = Y[1]*2") with
+  | Some (names, p) =>
+    names = ["Y"; "Z"; "X"] /\
+    f_eval_pass [] false p 1%Z [[0; 0; 0]; [0; 0; 0]; [5; 6; 7]]%float
+    = (([[0; 0; 6]; [12; 0; 0]; [5; 6; 7]]%float, None),
+       [Acc false 2 0%Z (Some 0); Acc true 0 2%Z (Some 2); Acc false 0 2%Z (Some 2); Acc true 1 0%Z (Some 0)])
+  | None => False
+  end.
+Proof. exact lhs_offset_pass. Qed.
+Print Assumptions C01_lhs_offset_instance.
 Theorem C01_pass_instance :
   match fprogram_of_script scriptC with
   | Some (_, p) =>
